@@ -146,6 +146,11 @@ class Prop:
                 a['attrs'] = {'units': 'K', 'valid_max': None, 'zero': 0, 'empty': '', 'flags': [], 'off': False}
                 a['axattrs'] = [dict(m, bounds=None, offset=0) for m in a['axattrs']]
                 stats['odd_metadata_values']['yes'] += 1
+            if rng.random() < 0.2:
+                # metadata stored under names of class members / constructor parameters ("entries stored in attrs under such names")
+                for k_ in rng.sample(['dims', 'labels', 'dtype', 'copy', 'values', 'axes', 'shape', '_indexing'], rng.randint(1, 2)):
+                    a['attrs'][k_] = {'dtype': 'float64', 'copy': 'no', '_indexing': 'label'}.get(k_, 'kept')
+                stats['metadata_member_names']['yes'] += 1
             dims = a['dims']; i = rng.randrange(nd); d = dims[i]; labs = a['labels'][i]
             name = rng.choice(Prop.KEEP + Prop.DROP)
             stats['propagation_op'][name] += 1
